@@ -102,6 +102,13 @@ pub fn inputs(tier: Tier) -> Vec<PCase> {
             }
         }
     }
+    // the code section's own size prefix at its LEB boundary: one or two functions whose entries
+    // total 120..136 bytes, with the code-transform dump as the observer of every reported offset
+    for n in [1usize, 2] {
+        for s in 112..=134usize {
+            v.push(PCase { name: format!("n={} body size {} (code section size around 127), preserve_ct", n, s), wasm: wgen::families::build_leb_full(n, 0, s, false, false, 0, 0), preserve_ct: true, n_funcs: n, gc: false, loc_mod: false });
+        }
+    }
     let maxn = if tier == Tier::Quick { 4 } else { 6 };
     for n in 1..=maxn {
         // equal sizes, increasing, decreasing (the size sort permutes), one tie
